@@ -293,7 +293,7 @@ func c15(e *env) {
 					}
 					bounds[off-1], bounds[off], bounds[off+1] = true, true, true
 				}
-				fcfs := []cf{{"l1only", false}, {"l1l2", false}, {"l1only", true}}
+				fcfs := []cf{{"l1only", false}, {"l1l2", false}, {"l1only", true}, {"l1l2", true}}
 				if thorough {
 					fcfs = cfs
 				}
